@@ -80,4 +80,18 @@ CHECKS = {
              "--outdir). With wrap_fortran off but wrap_c on, the bind(C) interface of the C wrapper may remain in the "
              "module; only the Fortran wrapper procedure must be gone.",
     ),
+    "C14": dict(
+        level="exploration",
+        technique="metamorphic property-based testing: pairs of equivalent descriptions (Hypothesis-drawn placements, "
+                  "option subsets, block spans) compared byte for byte",
+        design_ref="DESIGN.md section 4, C14",
+        text="Six relations over generated libraries and corpus entries: function-scoped option/format field on a "
+             "container == on each contained function; a setting on one function leaves every sibling's generated pieces "
+             "byte-identical; inline +attr == attrs:/fattrs:; --option/--language == YAML fields (bool, int and string "
+             "options, both boolean spellings); wrapping a span of declarations in an empty block is transparent; "
+             "create_wrapper == command line.",
+        note="Relation a is restricted to a curated list of settings that are read from the function's own scope "
+             "(listed with their reading site in vf/props/c14.py); .json/.log are excluded from the comparison; sibling "
+             "pieces are delimited by the 'Function:' headers written under debug: True.",
+    ),
 }
